@@ -19,6 +19,9 @@ func VerifReached() map[string]bool        { return vReachedIDs }
 func VerifObserved() []string              { return vObserved }
 func VerifReplayShort() bool               { return vReplayShort }
 func VerifIsAssumeViolated(r any) bool     { _, ok := r.(vAssumeViolated); return ok }
+func VerifGhostPoolMonitor(on bool)        { vGhostPoolMonitor(on) }
+func VerifGhostPoolViolations() int        { return vGhostPoolViolations() }
+func VerifAssertGhost(c bool, id string)   { vAssertGhost(c, id) }
 func VerifGhostPoolMode(mode int)          { vGhostPoolMode(mode) }
 func VerifWireSummary(out []byte) []byte   { return vWireSummary(out) }
 
